@@ -25,6 +25,7 @@ import (
 func c18Cfg() *sim.GenesisCfg {
 	g := c08Cfg()
 	g.LockingParams.MaxValidators = 3
+	g.Tokens = append(g.Tokens, &lockingtypes.TokenGenesis{Denom: lockingtypes.TokenDenom(enga.Tk2), Token: lockingtypes.Token{Weight: 1, Threshold: sim.Theta.MulRaw(0)}})
 	return g
 }
 
@@ -51,6 +52,8 @@ func c18Menu(thorough bool) []enga.ABlock {
 		ev(enga.Event{Kind: "req:params", Var: "cap-huge"}),
 		ev(enga.Event{Kind: "req:params", Var: "min-1001"}),
 		ev(enga.Event{Kind: "req:grant", N: 1000}),
+		ev(enga.Event{Kind: "req:create-tk2", N: 3}), // a candidate whose power comes from the second token only
+		ev(enga.Event{Kind: "req:weight-tk2", N: 0}), // ... and loses it when that token's weight drops to zero
 	}
 	if thorough {
 		m = append(m,
